@@ -24,6 +24,7 @@ DOC = {
  "C11.R7": "every removal of a group entry from the forward map is an OccupiedEntry::remove dominated by the true edges of members.is_empty() and listeners.is_empty() of that body; scope-monitor entries likewise by their vector's is_empty()",
  "C11.R8": "the reverse index shrinks only in remove_empty_actor_relations (empty under the lock + same Arc); that helper is called only on the exit path or on a status edge that excludes Unstarted..Draining",
  "C11.R9": "get_scoped_members / get_scoped_local_members look up exactly (scope param, group param), answer with members.values() of that entry cloned (local variant: filtered by is_local() only), empty otherwise; the unscoped getters delegate with the default scope",
+ "C11.R10": "join_scoped / leave_scoped / leave_all read the scope and all-scopes listener lists inside the critical section (held group entry) of the membership change, like the per-group listeners",
  "C11.R6": "which_groups / which_scopes / which_scopes_and_groups filter on non-empty members; which_scoped_groups reads the index",
 }
 
@@ -393,6 +394,53 @@ def r9(run, db):
         run.check(okd and okg and oksc, nm + "|delegates", "%s = %s(DEFAULT_SCOPE, group)" % (nm, target), "%s does not simply delegate to %s with the default scope and its group parameter" % (nm, target), f.where())
 
 
+def r10(run, db):
+    """`to every actor monitoring that group, its scope or all scopes *at that time*`: the set of listeners to tell is part of
+    the linearization point of the membership change.  The per-group listeners are cloned while the group's map entry is held;
+    the scope / all-scopes listeners must be read in the same critical section.  Read later, a monitor_scope that happens
+    after the change became visible is told about it, and a demonitor_scope after it is not."""
+    gs, rel = pg_fields(db)
+    def reads_world(fn):
+        out = []
+        for c in fn.calls():
+            if c.matches(r"DashMap::<K, V, S>::(get|iter|get_mut)$"):
+                ids = lock_identity(fn, c.args[0]) if False else None
+                p = op_place(c.args[0])
+                ty = ""
+                for r in fn.origins(c.args[0]):
+                    for e in r.get("proj", []) + r.get("trail", []):
+                        n = proj_field_name(e) if e.startswith("f:") else None
+                        if n == WL:
+                            out.append(c)
+        return out
+    # the world-listener field of PgState: DashMap<ScopeGroupKey, Vec<ActorCell>>
+    WL = None
+    for k, a in db.adts.items():
+        if k.startswith("ractor::pg::") and a["variants"]:
+            for fld in a["variants"][0]["fields"]:
+                if re.search(r"DashMap<ractor::pg::ScopeGroupKey, std::vec::Vec<ractor::actor::actor_cell::ActorCell>", fld["ty"]):
+                    WL = fld["name"]
+    if WL is None:
+        raise AnchorLost("pg world-listener map (by type)")
+    readers = {f.id: f for f in db.crate_fns("ractor") if f.id.startswith("ractor::pg::") and "::tests::" not in f.id and reads_world(f)}
+    n = 0
+    for nm in ("join_scoped", "leave_scoped", "leave_all"):
+        f = pg_fn(db, nm)
+        acqs = [a for a in acquisitions(f) if a.kind == "dashmap:entry" and not a.transient and any("map" in i for i in a.lock_ids)]
+        # the critical section that changes membership: the one in which members are inserted / removed
+        mem = [c for c in f.calls() if c.matches(r"HashMap::<K, V, S, A>::(insert|remove)$") and gs["members"] in field_names(f, c.args[0])]
+        crit = [a for a in acqs if any(c.site in a.held for c in mem)]
+        run.check(len(crit) >= 1, nm + "|membership-critical-section", "the membership change happens under the group's map entry", "membership change not under an entry guard", f.where())
+        sites = [c for c in reads_world(f)] + [c for c in f.calls() if (c.callee in readers or c.resolved in readers)]
+        run.anchor(nm + " world-listener reads", len(sites), 1, f.where())
+        for c in sites:
+            n += 1
+            inside = any(c.site in a.held for a in crit)
+            run.check(inside, nm + "|world-listeners-snapshot-under-entry", "the scope / all-scopes listeners are read inside the critical section of the membership change",
+                      "%s reads the scope / all-scopes listeners (%s) after the group entry was released: the membership change is already visible, so who is told depends on monitor_scope / demonitor_scope calls that happen after it" % (nm, c.name.split("::")[-1]), c.where())
+    run.anchor("world-listener read sites", n, 3)
+
+
 Q = ["dflt"]
 TH = ["dflt", "rc", "atr", "astd"]
-RULES = [{"id": "C11.R%d" % i, "fn": f, "quick": Q, "thorough": TH} for i, f in enumerate([r1, r2, r3, r4, r5, r6, r7, r8, r9], 1)]
+RULES = [{"id": "C11.R%d" % i, "fn": f, "quick": Q, "thorough": TH} for i, f in enumerate([r1, r2, r3, r4, r5, r6, r7, r8, r9, r10], 1)]
